@@ -90,6 +90,9 @@ def parse(path):
                 unit.source = d.split()[1]
             elif d.startswith('rule '):
                 unit.rules.append(_parse_rule(d, lineno))
+            elif d.startswith('include '):
+                inc = os.path.join(os.path.dirname(path), d.split()[1])
+                buf.append(open(inc).read())
             elif d.startswith('extract '):
                 flush_text()
                 m = re.match(r'extract\s+(fn|struct|enum|const|type)\s+(\w+)(.*)$', d)
@@ -181,7 +184,7 @@ def build_item(repo, unit, ex, canary, log):
     where = '%s:%s' % (ex.file, ex.name)
     text = rscan.strip_comments(orig)
     text = _strip_attrs(text, log, where)
-    rules = [(r[0], r[1], r[2], None) for r in R0_PATTERNS] + unit.rules_for(ex) + ex.rules
+    rules = [(r[0], r[1], r[2], None) for r in R0_PATTERNS] + ex.rules + unit.rules_for(ex)  # item-level rules take priority
     text = rscan.apply_rules(text, rules, log, where)
     rewritten = text
     inserts = []   # (offset, order, id, text)
